@@ -537,6 +537,10 @@ func (s *Server) handleQuery(source Addr, m krpc.Msg) {
 		}
 		s.reply(source, m.T, r)
 	case "announce_peer":
+		if m.A == nil {
+			s.sendError(source, m.T, krpcErrMissingArguments)
+			break
+		}
 		if !s.validToken(args.Token, source) {
 			expvars.Add("received announce_peer with invalid token", 1)
 			return
@@ -570,6 +574,10 @@ func (s *Server) handleQuery(source Addr, m krpc.Msg) {
 
 		s.reply(source, m.T, krpc.Return{})
 	case "put":
+		if m.A == nil {
+			s.sendError(source, m.T, krpcErrMissingArguments)
+			break
+		}
 		if !s.validToken(args.Token, source) {
 			expvars.Add("received put with invalid token", 1)
 			return
